@@ -271,6 +271,50 @@ CHECKS["C05"] = dict(engine="E2+E1", cat="model_checking", design="4/C05",
 PENDING_REASON = "check not built yet in this revision (planned in DESIGN.md section 4); not claimed until it is"
 
 
+# extensions made while running independent seeded changes (second wave): appended to the level text
+EXTRA = {
+    "C01": "Delimiter faults are also written with blanks between the delimiters and inside groups; delayed "
+           "Onset/Offset/Inset groups (Delay as the only extra tag) must be accepted, another extra tag reported.",
+    "C03": "E2: every history to depth 3 (thorough 5) of {read long, read short, validate under 8.2.0, validate under 8.3.0, "
+           "set extension, replace placeholder, copy} on one live tag (7 subjects incl. tags that moved between the two "
+           "versions) must leave the forms the XML model gives for (current schema, node, extension); copied-from objects "
+           "unchanged.",
+    "C04": "Reserved family: ordered pairs (thorough triples) of 16 entries around Duration / Delay / Onset / Offset / Inset / "
+           "Event-context / Def under every one-group permutation, reversal and respelling.",
+    "C05": "Descriptions include a quoted start and Unicode line-boundary characters; rooted library subtrees.",
+    "C06": "Templates with the same reference twice; value cells with backslash escapes and '#'.",
+    "C07": "Every issue (errors and warnings) is checked for its column label: cell-check codes name a column whose cell gives "
+           "that code, row-level / temporal issues no column, order warnings neither row nor column.",
+    "C08": "A top-level HED key is seeded with every JSON value type, first / last / alone.",
+    "C10": "A row that fails validation (thorough: also a valid marker-free row) inserted at the end (thorough: anywhere) must "
+           "leave the temporal issues of all time points unchanged.",
+    "C12": "E2: every history to depth 3 of {expand, shrink, validate, copy, sort} on Def-carrying strings followed by a "
+           "validation with a context-carrying handler; sort_issues also with reverse=True.",
+    "C13": "Prefix boundary values (one letter, digit / underscore at every position, with / without colon) through six ways of "
+           "giving a prefix; E2 histories to depth 3 (thorough 4) of {validate, set prefix tl / sc / none, group, version load} "
+           "on one schema object, then prefixed annotations (incl. a unique-tag violation) judged as by a fresh copy.",
+    "C14": "Duplicates (bare / described / verbatim) and out-of-range / changed hedIds also on unit classes, units, unit "
+           "modifiers, value classes, attributes and properties.",
+    "C15": "'{a: b}' for atoms is compared with a reference (a group holding a, optionally b, nothing else) wherever no group "
+           "has two candidates for one atom; the batch interface with unannotated rows (None / empty) at every position.",
+    "C16": "Directories with an excluded name below the root (with sidecar and events file) take no part.",
+    "C17": "A remap key listed twice before other keys; dispatcher histories include a table with an extra column.",
+    "C18": "Histories include repeated backup requests under the default name (explicit / omitted / empty) and a data root "
+           "whose own name mentions a task.",
+    "C19": "The lock model attaches the lock to the file opened at acquire time (conformance trace with real portalocker); "
+           "H4c: three holders, never two inside; the write seam models exclusive-create and append.",
+    "C20": "E2: every sequence to depth 2 (thorough 3) of six observers (unfold_context / HedTagManager with and without "
+           "remove_types) on one manager: answers equal a fresh manager's, manager state unchanged.",
+}
+for _k, _v in EXTRA.items():
+    CHECKS[_k]["text"] += "  Extended: " + _v
+CHECKS["C03"]["engine"] = "E1+E2"
+CHECKS["C03"]["technique"] += "; explicit-state exploration of operation histories on one live tag object"
+CHECKS["C13"]["engine"] = "E1+E2"
+CHECKS["C13"]["technique"] += "; explicit-state exploration of prefix-change histories on one schema object"
+CHECKS["C20"]["technique"] += "; observer histories on one manager compared with fresh managers"
+
+
 def main():
     props = [json.loads(l) for l in open(os.path.join(VERIF, "properties.jsonl"))]
     checks = []
